@@ -85,7 +85,7 @@ def gen_case(seed, idx):
         hist.append(["buildB", via])
     hist.append(["buildB_noext", None])
     return {"idx": idx, "world": w, "split": k, "clash": clash, "history": hist,
-            "b_refs": rng.random() < 0.8}
+            "b_refs": rng.random() < 0.8, "url_trailing_slash": rng.random() < 0.5}
 
 
 def a_exports(case):
@@ -461,7 +461,8 @@ def evaluate(case, seed, workdir, history=None):
                 if via == "local":
                     o["external"] = "a = ../pub"
                 else:
-                    o["external"] = "a = " + URL
+                    # the URL as a user would write it, with or without the trailing slash
+                    o["external"] = "a = " + (URL if case.get("url_trailing_slash", True) else URL.rstrip("/"))
                     net = {"routes": [{"prefix": URL, "dir": os.path.join(root, "pub")}]}
                     if armed:
                         net["fault"] = {"kind": armed}
